@@ -138,6 +138,34 @@ def run_identity(res, inst):
                           f"vertices={verts} edges={edges} focal={root}: automated_equation differs from the exact "
                           f"expectation: {diff_summary(got, want) if isinstance(got, Poly) else repr(got)}",
                           {k: inst[k] for k in ("n", "edges", "labels")}, root=root)
+    # boundary values as plain numbers: every assignment of u in {0, 1/2, 1} (ints, floats and Fractions mixed) to the
+    # vertices and phi in {0, 1/2, 1}, for the motifs on <= 4 vertices
+    if n <= 4 and not res.violations:
+        forms = {0: (0, 0.0, Fraction(0)), 1: (1, 1.0, Fraction(1)), 2: (0.5, Fraction(1, 2), 0.5)}
+        for root in verts[:2]:
+            want = perc.expectation_poly(verts, edges, root, p, u)
+            for ci, combo in enumerate(itertools.product((0, 1, 2), repeat=n)):
+                for pi, phi in enumerate((0.5, 0, 1)):
+                    if pi and ci % 3:
+                        continue
+                    uu = {v: forms[c][(ci + i) % 3] for i, (v, c) in enumerate(zip(verts, combo))}
+                    env = {"p": Fraction(phi)}
+                    env.update({f"u{v}": Fraction(uu[v]) for v in verts})
+                    w = float(want.subs(env))
+                    res.executions += 1
+                    try:
+                        got = float(evaluate(AutomatedEquation(), f"b{root}", verts, edges, root, phi, uu))
+                    except Exception as e:
+                        got = e
+                    if isinstance(got, Exception) or abs(got - w) > 1e-12:
+                        res.violation("C15:boundary-values", f"vertices={verts} edges={edges} focal={root} phi={phi!r} "
+                                      f"u={uu!r}: automated_equation gives {got!r}, exact value {w}",
+                                      {k: inst[k] for k in ("n", "edges", "labels")}, root=root)
+                        break
+                else:
+                    continue
+                break
+        res.flags.add("boundary-values")
     if len(edges) >= 3:
         res.nontrivial.add((tuple(verts), tuple(edges)))
     if not res.samples and len(edges) == 5:
